@@ -106,6 +106,7 @@ type program struct {
 	deferred map[int][]stmt  // function index → native sends deferred at its start (run in this order at its end)
 	segs     [][]stmt        // the statements of main, one segment per shape
 	modelled bool
+	raw      string // a program outside the mini language: Go source with @@ after every package-level name and @MAIN@ for main
 }
 
 func (p *program) protoLine(level string, fp0, fuel int, seed uint64) string {
@@ -200,6 +201,13 @@ func (w *srcWriter) stmts(ss []stmt) {
 // source renders the program; sfx is appended to every package-level name (gc batch), mainName
 // is the name of function 0.
 func (p *program) source(sfx, mainName string, standalone bool) string {
+	if p.raw != "" {
+		src := strings.ReplaceAll(strings.ReplaceAll(p.raw, "@MAIN@", mainName), "@@", sfx)
+		if standalone {
+			return "package main\n\nimport \"h\"\n\n" + src + "\nvar _ = h.Gosched\n"
+		}
+		return src
+	}
 	w := &srcWriter{sfx: sfx, p: p}
 	if standalone {
 		w.b.WriteString("package main\n\nimport \"h\"\n\n")
@@ -534,3 +542,157 @@ func (p *program) only(k int) *program {
 	q.segs = [][]stmt{p.segs[k]}
 	return &q
 }
+
+// ---- go statements with arguments of every register class ---------------------------------------
+
+// genMixed generates a program (Go source, not in the mini language: gc is its only oracle) whose
+// go statements pass int, float64, string and general ([]int) arguments in every mixture, from
+// frames with different numbers of live int / float / string / general locals, several go
+// statements per frame, inside nested calls; the caller changes the passed locals afterwards.
+func genMixed(r *proto.Rand) *program {
+	var b strings.Builder
+	classes := []string{"i", "f", "s", "g"}
+	typ := map[string]string{"i": "int", "f": "float64", "s": "string", "g": "[]int"}
+	nw := 2 + r.Intn(5)
+	ncallers := 1 + r.Intn(3)
+	type worker struct{ params []string }
+	var ws []worker
+	for j := 0; j < nw; j++ {
+		var w worker
+		for n := 1 + r.Intn(4); n > 0; n-- {
+			w.params = append(w.params, classes[r.Intn(4)])
+		}
+		ws = append(ws, w)
+		fmt.Fprintf(&b, "var c%d@@ = make(chan string)\n", j)
+	}
+	b.WriteString("var keep@@ = make(chan string, 8)\n\n")
+	for j, w := range ws {
+		var ps, parts []string
+		for k, c := range w.params {
+			ps = append(ps, fmt.Sprintf("p%d %s", k, typ[c]))
+			switch c {
+			case "i":
+				parts = append(parts, fmt.Sprintf("h.Itoa(p%d)", k))
+			case "f":
+				parts = append(parts, fmt.Sprintf("h.Itoa(int(p%d*4))", k))
+			case "s":
+				parts = append(parts, fmt.Sprintf("p%d", k))
+			case "g":
+				parts = append(parts, fmt.Sprintf("h.Itoa(len(p%d)) + \"/\" + h.Itoa(p%d[0])", k, k))
+			}
+		}
+		fmt.Fprintf(&b, "func w%d@@(%s) {\n\tc%d@@ <- \"w%d:\" + %s\n}\n\n", j, strings.Join(ps, ", "), j, j, strings.Join(parts, " + \",\" + "))
+	}
+	// distribute the workers over the frames: main and the callers
+	frames := ncallers + 1
+	assign := make([][]int, frames)
+	for j := range ws {
+		f := r.Intn(frames)
+		assign[f] = append(assign[f], j)
+	}
+	frame := func(k int, name, param string) {
+		fmt.Fprintf(&b, "func %s(%s) {\n", name, param)
+		p := "p"
+		if param == "" {
+			fmt.Fprintf(&b, "\tp := %d\n", 1+r.Intn(9))
+		}
+		locals := map[string][]string{}
+		var all []string
+		for _, c := range classes {
+			for n := r.Intn(4); n > 0; n-- {
+				v := fmt.Sprintf("%s%d", c, len(locals[c]))
+				locals[c] = append(locals[c], v)
+				all = append(all, v)
+				switch c {
+				case "i":
+					fmt.Fprintf(&b, "\t%s := %s*%d + %d\n", v, p, 2+r.Intn(5), r.Intn(50))
+				case "f":
+					fmt.Fprintf(&b, "\t%s := float64(%s) + %d.5\n", v, p, r.Intn(9))
+				case "s":
+					fmt.Fprintf(&b, "\t%s := \"%s\" + h.Itoa(%s)\n", v, words14[r.Intn(len(words14))], p)
+				case "g":
+					fmt.Fprintf(&b, "\t%s := []int{%s + %d, %d}\n", v, p, r.Intn(30), r.Intn(9))
+				}
+			}
+		}
+		arg := func(c string) string {
+			if l := locals[c]; len(l) > 0 && r.Intn(4) > 0 {
+				return l[r.Intn(len(l))]
+			}
+			switch c {
+			case "i":
+				return fmt.Sprintf("%s + %d", p, r.Intn(100))
+			case "f":
+				return fmt.Sprintf("float64(%s) + %d.25", p, r.Intn(9))
+			case "s":
+				return fmt.Sprintf("\"%s\" + h.Itoa(%s)", words14[r.Intn(len(words14))], p)
+			}
+			return fmt.Sprintf("[]int{%s, %d, %d}", p, r.Intn(9), r.Intn(9))
+		}
+		nested := func() {
+			if k+1 < frames {
+				fmt.Fprintf(&b, "\tcaller%d@@(%s + %d)\n", k+1, p, 1+r.Intn(3))
+			}
+		}
+		early := r.Intn(2) == 0
+		if early {
+			nested()
+		}
+		for _, j := range assign[k] {
+			var args []string
+			for _, c := range ws[j].params {
+				args = append(args, arg(c))
+			}
+			fmt.Fprintf(&b, "\tgo w%d@@(%s)\n", j, strings.Join(args, ", "))
+			// the caller goes on changing what it passed
+			for _, c := range classes {
+				if l := locals[c]; len(l) > 0 && r.Intn(2) == 0 {
+					v := l[r.Intn(len(l))]
+					switch c {
+					case "i":
+						fmt.Fprintf(&b, "\t%s = %s + 100\n", v, v)
+					case "f":
+						fmt.Fprintf(&b, "\t%s = %s + 8\n", v, v)
+					case "s":
+						fmt.Fprintf(&b, "\t%s = %s + \"!\"\n", v, v)
+					case "g":
+						fmt.Fprintf(&b, "\t%s = append(%s, 7)\n", v, v)
+					}
+				}
+			}
+		}
+		if !early {
+			nested()
+		}
+		// every local stays live across the go statements
+		sum := []string{fmt.Sprintf("\"%s:\"", name[:len(name)-2])}
+		for _, v := range all {
+			switch v[0] {
+			case 'i':
+				sum = append(sum, "h.Itoa("+v+")")
+			case 'f':
+				sum = append(sum, "h.Itoa(int("+v+"*4))")
+			case 's':
+				sum = append(sum, v)
+			case 'g':
+				sum = append(sum, "h.Itoa(len("+v+"))")
+			}
+		}
+		fmt.Fprintf(&b, "\tkeep@@ <- %s\n}\n\n", strings.Join(sum, " + \" \" + "))
+	}
+	for k := frames - 1; k >= 1; k-- {
+		frame(k, fmt.Sprintf("caller%d@@", k), "p int")
+	}
+	frame(0, "frame0@@", "")
+	b.WriteString("func @MAIN@() {\n\tframe0@@()\n")
+	for j := range ws {
+		fmt.Fprintf(&b, "\tprintln(<-c%d@@)\n", j)
+	}
+	for k := 0; k < frames; k++ {
+		b.WriteString("\tprintln(<-keep@@)\n")
+	}
+	b.WriteString("}\n")
+	return &program{N: 4, M: 2, raw: b.String(), shapes: []string{"go-args-of-every-register-class"}}
+}
+
+var words14 = []string{"a", "bc", "def", "x-", "Zq"}
